@@ -309,3 +309,86 @@ func r2SidName(id *ast.Ident, ok bool) string {
 	}
 	return id.Name
 }
+
+// ---- group r2ohp: constants and the check order of processOHP -----------------------------------
+
+func init() {
+	register("r2ohp", func(c *Ctx) error {
+		var sb strings.Builder
+		sb.WriteString("namespace Scion.Gen.R2Ohp\n")
+		{
+			e, err := r2ConstExpr(c, "pkg/slayers/path/onehop", "PathLen")
+			if err != nil {
+				return err
+			}
+			v, err := r2EvalInt(c, e, map[string]string{"path": "pkg/slayers/path"})
+			if err != nil {
+				return err
+			}
+			fmt.Fprintf(&sb, "/-- `pkg/slayers/path/onehop.PathLen` = `%s` -/\ndef PathLen : Nat := %d\n", c.Expr(e), v)
+		}
+		for _, x := range [][2]string{{"pkg/slayers/path", "MACBufferSize"},
+			{"pkg/slayers/path", "MacLen"}, {"pkg/slayers", "CmnHdrLen"}, {"router", "hopFieldDefaultExpTime"}} {
+			v, err := c.ConstNat(x[0], x[1])
+			if err != nil {
+				return err
+			}
+			fmt.Fprintf(&sb, "/-- `%s.%s` -/\ndef %s : Nat := %s\n", x[0], x[1], x[1], v)
+		}
+		fd, err := c.Func("router", "scionPacketProcessor", "processOHP")
+		if err != nil {
+			return err
+		}
+		var conds []string
+		ast.Inspect(fd.Body, func(n ast.Node) bool {
+			if is, ok := n.(*ast.IfStmt); ok {
+				s := c.Expr(is.Cond)
+				if is.Init != nil {
+					s = c.Expr(is.Init) + "; " + s
+				}
+				conds = append(conds, s)
+			}
+			return true
+		})
+		fmt.Fprintf(&sb, "/-- the `if` conditions of `processOHP` in source order (each guards a discard, except the ingress test) -/\ndef processOHPConds : List String := %s\n", LeanStrList(conds))
+		sb.WriteString("end Scion.Gen.R2Ohp\n")
+		return c.Emit("R2Ohp.lean", sb.String())
+	})
+}
+
+// r2EvalInt evaluates integer constant expressions over literals, + and *, and constants of
+// imported packages (pkgs maps the import name to the package directory).
+func r2EvalInt(c *Ctx, e ast.Expr, pkgs map[string]string) (int64, error) {
+	switch v := e.(type) {
+	case *ast.BasicLit:
+		return strconv.ParseInt(v.Value, 0, 64)
+	case *ast.ParenExpr:
+		return r2EvalInt(c, v.X, pkgs)
+	case *ast.SelectorExpr:
+		if id, ok := v.X.(*ast.Ident); ok {
+			if dir, ok := pkgs[id.Name]; ok {
+				s, err := c.ConstNat(dir, v.Sel.Name)
+				if err != nil {
+					return 0, err
+				}
+				return strconv.ParseInt(s, 10, 64)
+			}
+		}
+	case *ast.BinaryExpr:
+		a, err := r2EvalInt(c, v.X, pkgs)
+		if err != nil {
+			return 0, err
+		}
+		b, err := r2EvalInt(c, v.Y, pkgs)
+		if err != nil {
+			return 0, err
+		}
+		switch v.Op {
+		case token.ADD:
+			return a + b, nil
+		case token.MUL:
+			return a * b, nil
+		}
+	}
+	return 0, fmt.Errorf("cannot evaluate %s", c.Expr(e))
+}
